@@ -235,6 +235,7 @@ def run(rep):
     import core
     core.import_rules(rep, "c01", {"REWRITE-CONST", "PASS-ARMS", "LINEAR"})
     core.import_rules(rep, "c07", {"FLAG"})
+    core.import_rules(rep, "c01", {"ORDER-AND", "LAW"}, key_prefixes=("ORDER-AND/shake_0/", "LAW/shake_0/flatten", "LAW/shake_0/group-of-one", "LAW/shake_1/nested-merge"))
     # an optimised rule is serialised from its raw parts, so the reloaded copy is the unoptimised rule: the matrix form has to mean what the
     # written or-group means (one cell per column, cells compare against literals only, synthetic keys stay inside cells)
     core.import_rules(rep, "c03", {"L-MATRIX"})
